@@ -11,6 +11,11 @@
 // <oracle>   = ok | bad:<clause> (this harness's own, model-independent, check of the property)
 // <expected> = the exact answer the driver must give (differential observations), or `-`
 //              when the driver must answer `ok` (relational observations).
+//
+// `run` / `search` cases take `shake=<none|never|always|gen0|every|later|same> [shake_k=<k>]`: the shape of the
+// shake functor handed to evolution::run(run_count, shake) (searches: through a user validation_strategy).
+// The evaluator reads mutable data (fitcfg::salt) which the functor replaces; after every shake the monitor
+// reports `state shake …` and judges best.fitness == eval_now(best.solution) (and every other clause).
 #include <algorithm>
 #include <cmath>
 #include <fstream>
@@ -41,47 +46,52 @@ void emit(const std::string &oracle, const std::string &expected, const std::str
 // ---------------------------------------------------------------------------------------
 struct fitcfg
 {
-  unsigned k = 1;   // coarseness: larger = more ties
+  unsigned k = 1;      // coarseness: larger = more ties
+  unsigned salt = 0;   // THE DATA the evaluator reads: a shake functor replaces it (0 = the data every run
+                       // starts with; the scores below are the pre-shake ones for salt 0)
 };
 
 double raw_fit(const i_ga &x, const fitcfg &c)
 {
-  long long s(0);
-  for (auto g : x) s += std::llabs(static_cast<long long>(g));
+  long long s(0), i(0);
+  for (auto g : x) s += std::llabs(static_cast<long long>(g) + 3ll * (++i) * c.salt);
   return -static_cast<double>(1 + s / static_cast<long long>(c.k));
 }
 
 double raw_fit(const i_de &x, const fitcfg &c)
 {
-  double s(0.0);
-  for (auto g : x) s += std::fabs(g);
+  double s(0.0), i(0.0);
+  for (auto g : x) s += std::fabs(g - 1.5 * (i += 1.0) * c.salt);
   if (!std::isfinite(s) || s > 1e15) s = 1e15;
   return -(1.0 + std::floor(s / static_cast<double>(c.k)));
 }
 
+inline std::uint64_t salt_bits(const fitcfg &c) { return (c.salt * 0x9E3779B97F4A7C15ull) >> 19; }
+
 double raw_fit(const i_mep &x, const fitcfg &c)
 {
-  // a function of the signature only (i.e. of the active program): consistent with the
-  // signature-keyed cache of evaluator_proxy
+  // a function of the signature only (i.e. of the active program) and of the data: consistent with the
+  // signature-keyed cache of evaluator_proxy as long as the cache is cleared when the data change
   const auto h(x.signature());
-  return -static_cast<double>(1 + ((h.data[0] >> 11) ^ (h.data[1] >> 7)) % (1 + 997 / c.k));
+  return -static_cast<double>(1 + ((h.data[0] >> 11) ^ (h.data[1] >> 7) ^ salt_bits(c)) % (1 + 997 / c.k));
 }
 
 double raw_fit(const team<i_mep> &x, const fitcfg &c)
 {
   const auto h(x.signature());
-  return -static_cast<double>(1 + ((h.data[0] >> 13) ^ (h.data[1] >> 5)) % (1 + 997 / c.k));
+  return -static_cast<double>(1 + ((h.data[0] >> 13) ^ (h.data[1] >> 5) ^ salt_bits(c)) % (1 + 997 / c.k));
 }
 
+// the evaluator does not own the data: it reads them through the pointer at every call
 template<class T>
 class h_eval : public evaluator<T>
 {
 public:
-  explicit h_eval(fitcfg c) : c_(c) {}
-  fitness_t operator()(const T &x) override { return {raw_fit(x, c_)}; }
+  explicit h_eval(const fitcfg *c) : c_(c) {}
+  fitness_t operator()(const T &x) override { return {raw_fit(x, *c_)}; }
 
 private:
-  fitcfg c_;
+  const fitcfg *c_;
 };
 
 struct obs_t
@@ -236,12 +246,11 @@ runcfg parse_cfg(const std::vector<std::string> &t, std::size_t from, std::map<s
 }
 
 template<class T>
-std::unique_ptr<evaluator<T>> make_eva(const runcfg &c)
+std::unique_ptr<evaluator<T>> make_eva(const runcfg &c, const fitcfg *data)
 {
-  const fitcfg f{c.fitk};
   if (c.cache)
-    return std::make_unique<evaluator_proxy<T, h_eval<T>>>(h_eval<T>(f), c.cache);
-  return std::make_unique<h_eval<T>>(f);
+    return std::make_unique<evaluator_proxy<T, h_eval<T>>>(h_eval<T>(data), c.cache);
+  return std::make_unique<h_eval<T>>(data);
 }
 
 // zone membership, written independently of the Lean model: distance from the zone start
@@ -271,6 +280,9 @@ struct monitor
   long long best_before = 0;
   bool have_best = false;
   unsigned long events = 0;
+  int pending_shake = 0;        // the shake functor was called at the head of this generation and returned
+                                // false (1) / true (2); consumed at the first selection of the generation
+  unsigned long shakes = 0;     // how many times it returned true
   unsigned run_no = 0;          // how many times `begin` was called (= runs started so far)
   bool same_object = false;     // consecutive runs of ONE evolution object (whole_run): the later
                                 // `begin`s are restarts (population carried over, summary cleared)
@@ -338,6 +350,32 @@ struct monitor
     // (es_.init() is called right after): every clause must hold here, in every run
     emit(state_oracle(s.gen), "-", state_line(restart ? "restart" : "init", s.gen));
     best_before = static_cast<long long>(s.best.score.fitness[0]);
+    have_best = true;
+  }
+
+  // called by the shake functor handed to evolution::run (head of generation `gen`), AFTER it has
+  // changed `fc` (the data) and cleared the evaluator's cache when it returns true
+  void shake_called(unsigned gen, bool fired)
+  {
+    if (gen != sum->gen) emit("bad:shake-called-with-another-generation", "-", "noop");
+    pending_shake = fired ? 2 : 1;
+  }
+
+  // first observation point after the head of a generation (evolution::run has executed the shake
+  // branch and refreshed the statistics): EVERY clause is judged here against the data as they are
+  // now – in particular best.fitness == eval_now(best.solution), whatever the generation.  The
+  // "absent a data shake" qualifier applies to monotonicity only: it restarts from here.
+  void flush_shake()
+  {
+    const int p(pending_shake);
+    pending_shake = 0;
+    if (p != 2) return;
+    ++events;
+    ++shakes;
+    have_best = false;
+    emit(state_oracle(sum->gen), "-", state_line("shake", sum->gen));
+    snap = snapshot(*pop, fc);
+    best_before = static_cast<long long>(sum->best.score.fitness[0]);
     have_best = true;
   }
 
@@ -497,6 +535,7 @@ public:
     mon_es *m;
     parents_t run()
     {
+      g_mon<T>->flush_shake();
       auto ps(m->real_.selection.run());
       g_mon<T>->selected(ps);
       return ps;
@@ -555,19 +594,60 @@ template<class T> using mon_de_alps = mon_es<T, de_alps_es>;
 // ---------------------------------------------------------------------------------------
 // case: whole run through the real evolution<T, ES>::run
 // ---------------------------------------------------------------------------------------
+// the shapes of shake functor a user can hand to evolution::run(run_count, shake)
+//   none     evolution::run(run_count): the library's own never-shaking lambda
+//   never    a user functor that always returns false
+//   always   new data at every generation (generation 0 included)
+//   gen0     new data at generation 0 only (a validation strategy that re-samples when the run starts)
+//   every    new data every `k` generations, generation 0 included
+//   later    new data every `k` generations but not at generation 0 (the shape of dss::shake)
+//   same     returns true every `k` generations without touching the data (a re-evaluation that changes nothing)
+struct shake_plan
+{
+  std::string kind = "none";
+  unsigned k = 1;
+  unsigned calls = 0;
+
+  bool fires(unsigned gen) const
+  {
+    if (kind == "always") return true;
+    if (kind == "gen0") return gen == 0;
+    if (kind == "every" || kind == "same") return gen % k == 0;
+    if (kind == "later") return gen && gen % k == 0;
+    return false;
+  }
+  bool changes_data() const { return kind != "same"; }
+
+  // the next data: never the current ones, a function of the case only
+  unsigned next(unsigned seed, unsigned cur)
+  {
+    ++calls;
+    const unsigned n(1 + (seed % 7 + 5 * calls) % 11);
+    return n == cur ? n + 1 : n;
+  }
+};
+
+shake_plan parse_shake(const std::map<std::string, std::string> &extra)
+{
+  shake_plan p;
+  if (extra.count("shake")) p.kind = extra.at("shake");
+  if (extra.count("shake_k")) p.k = std::max(1ul, std::stoul(extra.at("shake_k")));
+  return p;
+}
+
 template<class T, template<class> class ES>
-void whole_run(const runcfg &c, unsigned runs)
+void whole_run(const runcfg &c, unsigned runs, shake_plan plan)
 {
   prob_for<T> pf;
   c.apply(pf.prob.env);
   random::seed(c.seed);
 
-  auto eva(make_eva<T>(c));
   monitor<T> mon;
   mon.cfg = c;
-  mon.fc = fitcfg{c.fitk};
+  mon.fc = fitcfg{c.fitk, 0};      // the data; the evaluator reads them through the pointer
   mon.same_object = true;
   g_mon<T> = &mon;
+  auto eva(make_eva<T>(c, &mon.fc));
 
   evolution<T, ES> evo(pf.prob, *eva);
   unsigned callbacks(0);
@@ -579,15 +659,33 @@ void whole_run(const runcfg &c, unsigned runs)
                          // the public observation point of the property ("after every generation")
                          if (s.last_imp > s.gen)
                            emit("bad:last-imp-after-gen", "-", "noop");
+                         if (s.best.score.fitness.size() != 1 || s.best.score.fitness[0] != raw_fit(s.best.solution, mon.fc))
+                           emit("bad:best-not-eval", "-", "noop");
                        });
+  // the user's shake functor: changes the data the evaluator reads, clears the cached scores (they
+  // refer to the previous data) and reports it
+  const auto shake([&](unsigned gen)
+                   {
+                     const bool fire(plan.fires(gen));
+                     if (fire)
+                     {
+                       if (plan.changes_data())
+                         mon.fc.salt = plan.next(c.seed, mon.fc.salt);
+                       eva->clear();
+                     }
+                     mon.shake_called(gen, fire);
+                     return fire;
+                   });
   // `runs` consecutive runs of the SAME evolution object (the `run_count` argument of
   // evolution::run exists for this): run r > 0 goes on from the population run r-1 evolved
   for (unsigned r(0); r < runs; ++r)
   {
     callbacks = 0;
-    const auto &s(evo.run(r));
+    const auto &s(plan.kind == "none" ? evo.run(r) : evo.run(r, shake));
     if (mon.run_no != r + 1)
       emit("bad:run-not-monitored", "-", "noop");
+    if (mon.pending_shake)
+      emit("bad:shake-not-followed-by-a-generation", "-", "noop");
     if (callbacks != s.gen)
       emit("bad:callback-count", "-", "noop");
     if (s.last_imp > s.gen)
@@ -601,9 +699,30 @@ void whole_run(const runcfg &c, unsigned runs)
 // ---------------------------------------------------------------------------------------
 // case: a whole search (tune_parameters + `runs` evolutions) with the monitored strategy
 // ---------------------------------------------------------------------------------------
-fitcfg g_search_fc;
-double ga_search_fit(const i_ga &x) { return raw_fit(x, g_search_fc); }
-double de_search_fit(const i_de &x) { return raw_fit(x, g_search_fc); }
+const fitcfg *g_search_fc = nullptr;      // the data of the running search (owned by its monitor)
+double ga_search_fit(const i_ga &x) { return raw_fit(x, *g_search_fc); }
+double de_search_fit(const i_de &x) { return raw_fit(x, *g_search_fc); }
+
+// a user defined validation strategy: `search::run` hands `vs_->shake(g)` to evolution::run
+class user_validation final : public validation_strategy
+{
+public:
+  explicit user_validation(std::function<bool(unsigned)> f) : f_(std::move(f)) {}
+  void init(unsigned) override {}
+  bool shake(unsigned g) override { return f_(g); }
+
+private:
+  std::function<bool(unsigned)> f_;
+};
+
+// ... which has to clear the cached scores of the training evaluator (a protected member of search)
+template<class T, template<class> class ES, class F>
+class shaking_search final : public basic_ga_search<T, ES, F>
+{
+public:
+  using basic_ga_search<T, ES, F>::basic_ga_search;
+  void clear_scores() { this->eva1_->clear(); }
+};
 
 template<class T, template<class> class ES, class P, class F>
 void whole_search(const runcfg &c, unsigned runs, F f, const std::map<std::string, std::string> &open)
@@ -621,19 +740,43 @@ void whole_search(const runcfg &c, unsigned runs, F f, const std::map<std::strin
   prob.env.cache_size = c.cache ? c.cache : 7;
   random::seed(c.seed);
 
-  g_search_fc = fitcfg{c.fitk};
   monitor<T> mon;
   mon.cfg = c;
-  mon.fc = g_search_fc;
+  mon.fc = fitcfg{c.fitk, 0};
+  g_search_fc = &mon.fc;
   g_mon<T> = &mon;
 
-  basic_ga_search<T, ES, F> s(prob, f);
+  shaking_search<T, ES, F> s(prob, f);
+  shake_plan plan(parse_shake(open));
+  if (plan.kind != "none")
+    s.template validation_strategy<user_validation>(
+      [&](unsigned gen)
+      {
+        const bool fire(plan.fires(gen));
+        if (fire)
+        {
+          if (plan.changes_data())
+            mon.fc.salt = plan.next(c.seed, mon.fc.salt);
+          s.clear_scores();
+        }
+        mon.shake_called(gen, fire);
+        return fire;
+      });
   unsigned callbacks(0);
-  s.after_generation([&](const population<T> &, const summary<T> &) { ++callbacks; });
+  s.after_generation([&](const population<T> &, const summary<T> &st)
+                     {
+                       ++callbacks;
+                       if (st.best.score.fitness.size() != 1 || st.best.score.fitness[0] != raw_fit(st.best.solution, mon.fc))
+                         emit("bad:best-not-eval", "-", "noop");
+                     });
   const auto res(s.run(runs));
   if (!prob.env.is_valid(true))
     emit("bad:tuned-environment-not-valid", "-", "noop");
-  if (res.best.score.fitness.size() != 1 || res.best.score.fitness[0] != raw_fit(res.best.solution, g_search_fc))
+  // (the data of the last run are still in place: `search::run` re-evaluates nothing after it)
+  // and is the one whose best the search returns – unless an earlier run won, whose best was scored on
+  // the data of that run: only comparable when the data never changed)
+  if ((runs == 1 || !plan.changes_data() || !mon.shakes) &&
+      (res.best.score.fitness.size() != 1 || res.best.score.fitness[0] != raw_fit(res.best.solution, mon.fc)))
     emit("bad:search-best-not-eval", "-", "noop");
   if (!callbacks)
     emit("bad:callback-count", "-", "noop");
@@ -658,14 +801,15 @@ void case_run(const std::vector<std::string> &t)
   const runcfg c(parse_cfg(t, 1, &extra));
   const std::string ind(extra["T"]);
   const unsigned runs(extra.count("runs") ? std::stoul(extra["runs"]) : 1u);
-  if (c.strat == "std" && ind == "mep") whole_run<i_mep, mon_std>(c, runs);
-  else if (c.strat == "std" && ind == "ga") whole_run<i_ga, mon_std>(c, runs);
-  else if (c.strat == "std" && ind == "team") whole_run<team<i_mep>, mon_std>(c, runs);
-  else if (c.strat == "alps" && ind == "team") whole_run<team<i_mep>, mon_alps>(c, runs);
-  else if (c.strat == "alps" && ind == "mep") whole_run<i_mep, mon_alps>(c, runs);
-  else if (c.strat == "alps" && ind == "ga") whole_run<i_ga, mon_alps>(c, runs);
-  else if (c.strat == "de" && ind == "de") whole_run<i_de, mon_de>(c, runs);
-  else if (c.strat == "alps" && ind == "de") whole_run<i_de, mon_de_alps>(c, runs);
+  const shake_plan plan(parse_shake(extra));
+  if (c.strat == "std" && ind == "mep") whole_run<i_mep, mon_std>(c, runs, plan);
+  else if (c.strat == "std" && ind == "ga") whole_run<i_ga, mon_std>(c, runs, plan);
+  else if (c.strat == "std" && ind == "team") whole_run<team<i_mep>, mon_std>(c, runs, plan);
+  else if (c.strat == "alps" && ind == "team") whole_run<team<i_mep>, mon_alps>(c, runs, plan);
+  else if (c.strat == "alps" && ind == "mep") whole_run<i_mep, mon_alps>(c, runs, plan);
+  else if (c.strat == "alps" && ind == "ga") whole_run<i_ga, mon_alps>(c, runs, plan);
+  else if (c.strat == "de" && ind == "de") whole_run<i_de, mon_de>(c, runs, plan);
+  else if (c.strat == "alps" && ind == "de") whole_run<i_de, mon_de_alps>(c, runs, plan);
   else emit("bad:unknown-run-case", "-", "noop");
 }
 
@@ -706,7 +850,10 @@ void components(const runcfg &c, const std::string &what, unsigned count)
   random::seed(c.seed);
   verif::splitmix rng(c.seed * 7919u + 13u);
 
-  auto eva(make_eva<T>(c));
+  monitor<T> mon;
+  mon.cfg = c;
+  mon.fc = fitcfg{c.fitk, 0};
+  auto eva(make_eva<T>(c, &mon.fc));
   population<T> pop(pf.prob);
   prepare(pop, c, rng);
 
@@ -716,9 +863,6 @@ void components(const runcfg &c, const std::string &what, unsigned count)
   sum.gen = rng.below(5);
   sum.last_imp = sum.gen ? rng.below(sum.gen + 1) : 0;
 
-  monitor<T> mon;
-  mon.cfg = c;
-  mon.fc = fitcfg{c.fitk};
   mon.begin(pop, sum);
 
   selection::tournament<T> sel_t(pop, *eva, sum);
